@@ -1,7 +1,4 @@
 #!/venv/bin/python
-
-NOTE: the patch is applied to /repo itself for the duration of the run: never run two of these at once, and never while a
-self-test (which copies /repo/src for every patch it tries) is running -- the two must not overlap.
 """Confirm a seeded change and run the registered checks against it.
 
 usage: seed.py <patch> <demo> <property> <seed-id> [--needs "..."]
@@ -10,6 +7,8 @@ usage: seed.py <patch> <demo> <property> <seed-id> [--needs "..."]
    baseline result, the demonstration fails with the change and passes without it.
 2. The patch is applied to /repo itself, every registered quick check is run, and the patch is undone straight afterwards.
 3. /verif/seeded/<seed-id>/{patch.diff,demo.py,meta.json} is written.
+NOTE: the patch is applied to /repo itself for the duration of the run: never run two of these at once, and never while a
+self-test (which copies /repo/src for every patch it tries) is running -- the two must not overlap.
 """
 import argparse
 import json
